@@ -527,9 +527,6 @@ def h_random(rng):
     return h_chain(rng)
 
 
-FAMILIES = [h_chain, h_diamond, h_mixin, h_virtual, h_virtual_diamond, h_virtual_under_base,
-            h_builtin, h_random, h_random]
-
 
 def coherent(env, specs):
     """isinstance / issubclass / __mro__ agree with each other (the Lean side's `hierWF`)"""
@@ -712,12 +709,90 @@ def reregistration_stream(rng, n):
         yield {'classes': specs, 'kinds': [kind], 'actions': acts}
 
 
+def h_virtual_lattice(rng):
+    """ABCs with a diamond (a type below two unrelated ones) or a random small DAG, a plain class
+    registered as virtual subclass of the lower ones, optionally below a real base class / a mixin"""
+    for _ in range(30):
+        out = []
+        if rng.random() < 0.7:
+            top = []
+            if rng.random() < 0.3:
+                out.append(cls('V0', ['object'], meta='abc'))
+                top = ['V0']
+            out.append(cls('T1', top or ['object'], meta='abc'))
+            out.append(cls('T2', top if rng.random() < 0.5 and top else ['object'], meta='abc'))
+            out.append(cls('Bt', rng.choice([['T1', 'T2'], ['T2', 'T1']]), meta='abc'))
+            if rng.random() < 0.4:
+                out.append(cls('Bt2', ['Bt'], meta='abc'))
+            if rng.random() < 0.4:
+                out.append(cls('U', ['object'], meta='abc'))
+            lower = [c['name'] for c in out if c['name'] in ('Bt', 'Bt2', 'U')]
+        else:
+            n = rng.randint(3, 5)
+            for i in range(n):
+                pool = [c['name'] for c in out]
+                k = rng.choice([0, 1, 1, 2]) if pool else 0
+                bases = rng.sample(pool, min(k, len(pool))) or ['object']
+                out.append(cls('V%d' % i, bases, meta='abc'))
+            lower = [c['name'] for c in out[1:]] or [out[0]['name']]
+        s = rng.random() < 0.7
+        extra = []
+        if rng.random() < 0.4:
+            extra.append(cls('N', ['object'], slots=s))
+        if rng.random() < 0.3:
+            extra.append(cls('Mx', ['object'], slots=s))
+        pb = [c['name'] for c in extra] or ['object']
+        extra.append(cls('P', pb, slots=s))
+        extra.append(cls('P2', ['P'], slots=s))
+        for v in rng.sample(lower, min(len(lower), rng.choice([1, 1, 2]))):
+            next(c for c in out if c['name'] == v).setdefault('virtual', []).append(rng.choice(['P', 'P', 'P2']))
+        if extra[0]['name'] == 'N' and rng.random() < 0.4:
+            # a virtual type below the real base class
+            out.append(cls('VN', ['N'], meta='abc', virtual=['P']))
+            specs = extra[:1] + out + extra[1:]
+        else:
+            specs = out + extra
+        if valid_classes(specs):
+            return specs
+    return h_virtual_diamond(rng)
+
+
+FAMILIES = [h_chain, h_diamond, h_mixin, h_virtual, h_virtual_diamond, h_virtual_under_base,
+            h_builtin, h_random, h_random, h_virtual_lattice]
+
+
+def cross_branch_stream(rng, n):
+    """registrations of all (virtual) types in a random order, one or two re-registrations at random
+    positions, then a lookup of every plain class: the deepest matches sit in different branches"""
+    for _ in range(n):
+        specs = h_virtual_lattice(rng) if rng.random() < 0.8 else h_virtual_under_base(rng)
+        names = [c['name'] for c in specs]
+        targets = [c['name'] for c in specs if not c.get('meta')]
+        kind = rng.choice(['registry:0', 'registry:0', 'registry:1', 'glommer:1', 'module'])
+        op = rng.choice(['get', 'get', 'iterate', 'assign'])
+        regs = [t for t in rng.sample(names, len(names))
+                if rng.random() < (0.0 if t == 'P2' else 0.15 if t == 'P' else 0.9)]
+        acts = [{'a': 'register', 'reg': 0, 'ty': t, 'exact': rng.random() < 0.08,
+                 'kw': [[op, 'h:%s' % t]]} for t in regs]
+        for _k in range(rng.choice([0, 1, 1, 2])):
+            if regs:
+                abcs = [t for t in regs if t not in targets]
+                t = rng.choice(abcs or regs)
+                acts.insert(rng.randint(1, len(acts)),
+                            {'a': 'register', 'reg': 0, 'ty': t, 'exact': False,
+                             'kw': [[op, 'h:%s' % t]] if rng.random() < 0.7 else []})
+        for q in targets:
+            acts.append({'a': 'lookup', 'reg': 0, 'op': op, 'ty': q, 'raise': rng.random() < 0.8})
+        yield {'classes': specs, 'kinds': [kind], 'actions': acts}
+
+
 def generate(rng, tier, scale, **focus):
     n = (1100 if tier == 'quick' else 25000) * scale
     maxreg = 8
     for _ in range(n):
         yield gen_case(rng, maxreg)
     yield from reregistration_stream(rng, (300 if tier == 'quick' else 5000) * scale)
+    yield from cross_branch_stream(rng, (300 if tier == 'quick' else 5000) * scale)
     if tier == 'thorough' and not focus.get('no_exhaustive'):
         yield from exhaustive()
 
